@@ -175,7 +175,7 @@ fn serve(mut s: TcpStream, handler: &Arc<Mutex<Option<Handler>>>) {
     for (k, v) in &resp.headers {
         out.push_str(&format!("{k}: {v}\r\n"));
     }
-    let no_body = resp.status == 204;
+    let no_body = resp.status == 204 || resp.status == 304;
     if !no_body {
         out.push_str(&format!("Content-Length: {}\r\n", resp.declared_len.unwrap_or(resp.body.len())));
     }
@@ -285,30 +285,62 @@ pub fn http_date(ms: i64) -> String {
 /// ListBucketResult (list-type=2) for the given objects (already filtered, ordered, truncated).
 /// `order` permutes the child elements of <Contents>: 0 = Key,LastModified,ETag,Size,StorageClass;
 /// 1 = Size first; 2 = LastModified first, Key last.
+fn xml_charrefs(s: &str) -> String {
+    let mut o = String::new();
+    for c in s.chars() {
+        if c == '&' || c == '<' || c == '>' || c == '"' || c == '\'' || !c.is_ascii() {
+            o.push_str(&format!("&#{};", c as u32));
+        } else {
+            o.push(c);
+        }
+    }
+    o
+}
+
+/// ListBucketResult (list-type=2). `order` selects an equivalent serialisation of the same
+/// information: 0 canonical; 1 Size first; 2 Key last; 3 pretty-printed (whitespace text nodes);
+/// 4 numeric character references instead of entities / raw non-ASCII; 5 an <Owner> element with
+/// children and a <ChecksumAlgorithm> inside every <Contents>; 6 pretty + owner.
 pub fn list_xml(bucket: &str, prefix: &str, objs: &[Obj], truncated: bool, order: u8) -> String {
+    let pretty = order == 3 || order == 6;
+    let owner = order == 5 || order == 6;
+    let esc = |x: &str| if order == 4 { xml_charrefs(x) } else { xml_escape(x) };
+    let nl = if pretty { "\n  " } else { "" };
+    let nl2 = if pretty { "\n    " } else { "" };
     let mut s = String::from("<?xml version=\"1.0\" encoding=\"UTF-8\"?>\n");
     s.push_str("<ListBucketResult xmlns=\"http://s3.amazonaws.com/doc/2006-03-01/\">");
-    s.push_str(&format!("<Name>{}</Name><Prefix>{}</Prefix><KeyCount>{}</KeyCount><MaxKeys>1000</MaxKeys>", xml_escape(bucket), xml_escape(prefix), objs.len()));
-    s.push_str(&format!("<IsTruncated>{}</IsTruncated>", truncated));
+    s.push_str(&format!("{nl}<Name>{}</Name>{nl}<Prefix>{}</Prefix>{nl}<KeyCount>{}</KeyCount>{nl}<MaxKeys>1000</MaxKeys>", esc(bucket), esc(prefix), objs.len()));
+    s.push_str(&format!("{nl}<IsTruncated>{}</IsTruncated>", truncated));
     for o in objs {
-        let key = format!("<Key>{}</Key>", xml_escape(&o.key));
+        let key = format!("<Key>{}</Key>", esc(&o.key));
         let lm = format!("<LastModified>{}</LastModified>", iso8601(o.modified_ms, o.fractional));
         let etag = "<ETag>&quot;0123456789abcdef&quot;</ETag>".to_string();
         let size = format!("<Size>{}</Size>", o.size_text);
         let sc = "<StorageClass>STANDARD</StorageClass>".to_string();
-        let parts = match order {
-            0 => vec![key, lm, etag, size, sc],
+        let mut parts = match order {
             1 => vec![size, key, lm, etag, sc],
-            _ => vec![lm, etag, size, sc, key],
+            2 => vec![lm, etag, size, sc, key],
+            _ => vec![key, lm, etag, size, sc],
         };
+        if owner {
+            parts.insert(2, format!("<Owner>{nl2}<ID>75aa57f09aa0c8caeab4f8c24e99d10f8e7faeebf76c078efc7c6caea54ba06a</ID>{nl2}<DisplayName>noaa-nexrad &amp; co</DisplayName></Owner>"));
+            parts.push("<ChecksumAlgorithm>CRC32</ChecksumAlgorithm>".to_string());
+        }
+        s.push_str(nl);
         s.push_str("<Contents>");
         for p in parts {
+            s.push_str(nl2);
             s.push_str(&p);
         }
+        s.push_str(nl);
         s.push_str("</Contents>");
     }
     if truncated {
+        s.push_str(nl);
         s.push_str("<NextContinuationToken>abc</NextContinuationToken>");
+    }
+    if pretty {
+        s.push('\n');
     }
     s.push_str("</ListBucketResult>");
     s
